@@ -850,6 +850,9 @@ func (e *Engine) loopEnter(s *State, fn *ssa.Function, l *loop) {
 		}
 	}
 	pos := l.header.Instrs[0].Pos()
+	// ghost iteration counter iter<k>: 0 at entry, +1 at every back edge
+	iterKey := fmt.Sprintf("iter%d", l.ordinal)
+	s.Ghost[iterKey] = "0"
 	for k, inv := range invs {
 		cx := e.specCtx(s, fn)
 		cx.LoopSnap = s.Heap // at entry the current heap is the loop-entry heap
@@ -920,6 +923,9 @@ func (e *Engine) loopEnter(s *State, fn *ssa.Function, l *loop) {
 			}
 		}
 	}
+	itv := e.declare(s, "iter", "Int")
+	s.assume(app(">=", itv, "0"))
+	s.Ghost[iterKey] = itv
 	for _, inv := range invs {
 		cx := e.specCtx(s, fn)
 		cx.LoopSnap = s.LoopHeap[l.header]
@@ -948,6 +954,10 @@ func (e *Engine) loopBack(s *State, fn *ssa.Function, l *loop) {
 		return
 	}
 	pos := l.header.Instrs[0].Pos()
+	iterKey := fmt.Sprintf("iter%d", l.ordinal)
+	if cur, ok := s.Ghost[iterKey]; ok {
+		s.Ghost[iterKey] = app("+", cur, "1")
+	}
 	for k, inv := range c.LoopInv[l.ordinal] {
 		cx := e.specCtx(s, fn)
 		cx.LoopSnap = s.LoopHeap[l.header]
